@@ -773,11 +773,427 @@ def main_grammar():
                'start': spec._userStartSym.name if spec._userStartSym else None}, sys.stdout)
 
 
+# ------------------------------------------------------------------ core correspondence
+# Terms of coq/theories/C01/Model.v in prefix notation (see ocaml/c01_main.ml):
+#   C k nneg v | P i | R m n k step* | Q k step* | X e k step* | U op e | B oid l r | I neg l type |
+#   F py c a b | S T|A|S k e* | N k (n e)* | K m f ka e* kk (n e)* | T opt type e | D k e (sl a? b?)* |
+#   A e | G m n | H e k (n e?)*        step: p bw n | a n | i type     type: n m n | c m n k type*
+# Leaves are indexes into the tables below (the model treats them as opaque numbers).
+
+NAMES = ['x', 'y', 'z', 'Foo', 'bar', 'a1', 'std', 'T', 'U', 'my_mod', 'f', 'g', 'w', 'my name', 'select', 'é',
+         'if', 'a`b', 'Name', 'p', 'q', 'k', '1st', 'array', 'tuple', 'int64', 'str', 'dflt', 'else', 'in']
+INTS = ['0', '1', '2', '5', '42', '700', '9223372036854775807']
+FLOATS = ['1.5', '0.0', '1e10', '2.5e-3']
+BIGINTS = ['1n', '0n', '123456789012345678901234567890n']
+DECIMALS = ['1.5n', '2.5e-3n', '0.0n']
+STRS = ['abc', '', "it's", 'say "hi"', 'a\\b', 'both \' and "', 'multi\nline', '$$', 'tab\there', 'ünï', 'x$']
+BYTESV = [b'ab', b'', b'\x00\xff', b"q'q", b'a\\b', b'\n']
+PARAMS = ['x', '0', '1', 'abc', '_', 'p1']
+NUMTAB = {'i': INTS, 'f': FLOATS, 'n': BIGINTS, 'd': DECIMALS}
+NUMKIND = {'i': 'INTEGER', 'f': 'FLOAT', 'n': 'BIGINT', 'd': 'DECIMAL'}
+UNOPS = {'+': '+', '-': '-', 'N': 'NOT', 'E': 'EXISTS', 'D': 'DISTINCT'}
+
+_MAN = None
+
+
+def manifest():
+    global _MAN
+    if _MAN is None:
+        p = os.path.join(os.path.dirname(os.path.dirname(HERE)), 'coq', 'theories', 'C01', 'Gen_Grammar.manifest.json')
+        _MAN = json.load(open(p))
+        _MAN['text2sym'] = {t.lower(): _MAN['symbols'][n] for n, t in _MAN['symbol_text'].items()}
+    return _MAN
+
+
+class Unsupported(Exception):
+    pass
+
+
+class TermReader:
+    def __init__(self, toks):
+        self.t = toks
+        self.i = 0
+
+    def nxt(self):
+        v = self.t[self.i]
+        self.i += 1
+        return v
+
+    def opt_name(self):
+        v = self.nxt()
+        return None if v == '-' else NAMES[int(v)]
+
+    def typ(self):
+        from edb.edgeql import ast as q
+        k = self.nxt()
+        m = self.opt_name()
+        n = NAMES[int(self.nxt())]
+        ref = q.ObjectRef(name=n, module=m)
+        if k == 'n':
+            return q.TypeName(maintype=ref)
+        cnt = int(self.nxt())
+        return q.TypeName(maintype=ref, subtypes=[self.typ() for _ in range(cnt)])
+
+    def step(self):
+        from edb.schema import pointers as s_pointers
+        k = self.nxt()
+        if k == 'p':
+            bw = self.nxt() == '1'
+            return qlast.Ptr(name=NAMES[int(self.nxt())],
+                             direction=s_pointers.PointerDirection.Inbound if bw else s_pointers.PointerDirection.Outbound)
+        if k == 'a':
+            return qlast.Ptr(name=NAMES[int(self.nxt())], direction=s_pointers.PointerDirection.Outbound, type='property')
+        return qlast.TypeIntersection(type=self.typ())
+
+    def opt(self):
+        if self.t[self.i] == '_':
+            self.i += 1
+            return None
+        return self.expr()
+
+    def expr(self):
+        q = qlast
+        k = self.nxt()
+        if k == 'C':
+            kind, nneg, v = self.nxt(), int(self.nxt()), int(self.nxt())
+            if kind == 's':
+                return q.Constant.string(STRS[v])
+            if kind == 'b':
+                return q.BytesConstant(value=BYTESV[v])
+            if kind == 't':
+                return q.Constant.boolean(v != 0)
+            return q.Constant(value='-' * nneg + NUMTAB[kind][v], kind=getattr(q.ConstantKind, NUMKIND[kind]))
+        if k == 'P':
+            return q.Parameter(name=PARAMS[int(self.nxt())])
+        if k == 'R':
+            m = self.opt_name()
+            n = NAMES[int(self.nxt())]
+            cnt = int(self.nxt())
+            return q.Path(steps=[q.ObjectRef(name=n, module=m)] + [self.step() for _ in range(cnt)])
+        if k == 'Q':
+            cnt = int(self.nxt())
+            return q.Path(steps=[self.step() for _ in range(cnt)], partial=True)
+        if k == 'X':
+            e = self.expr()
+            cnt = int(self.nxt())
+            return q.Path(steps=[e] + [self.step() for _ in range(cnt)])
+        if k == 'U':
+            op = UNOPS[self.nxt()]
+            return q.UnaryOp(op=op, operand=self.expr())
+        if k == 'B':
+            op = manifest()['operators'][int(self.nxt())]
+            l = self.expr()
+            r = self.expr()
+            return q.BinOp(left=l, op=op, right=r)
+        if k == 'I':
+            neg = self.nxt() == '1'
+            l = self.expr()
+            return q.IsOp(left=l, op='IS NOT' if neg else 'IS', right=self.typ())
+        if k == 'F':
+            py = self.nxt() == '1'
+            c, a, b = self.expr(), self.expr(), self.expr()
+            return q.IfElse(condition=c, if_expr=a, else_expr=b, python_style=py)
+        if k == 'S':
+            kind, cnt = self.nxt(), int(self.nxt())
+            es = [self.expr() for _ in range(cnt)]
+            return {'T': q.Tuple, 'A': q.Array, 'S': q.Set}[kind](elements=es)
+        if k == 'N':
+            cnt = int(self.nxt())
+            els = []
+            for _ in range(cnt):
+                n = NAMES[int(self.nxt())]
+                els.append(q.TupleElement(name=q.Ptr(name=n), val=self.expr()))
+            return q.NamedTuple(elements=els)
+        if k == 'K':
+            m = self.opt_name()
+            f = NAMES[int(self.nxt())]
+            ka = int(self.nxt())
+            args = [self.expr() for _ in range(ka)]
+            kk = int(self.nxt())
+            kw = {}
+            for _ in range(kk):
+                n = NAMES[int(self.nxt())]
+                kw[n] = self.expr()
+            return q.FunctionCall(func=(m, f) if m is not None else f, args=args, kwargs=kw)
+        if k == 'T':
+            opt = self.nxt() == '1'
+            t = self.typ()
+            return q.TypeCast(type=t, expr=self.expr(),
+                              cardinality_mod=q.CardinalityModifier.Optional if opt else None)
+        if k == 'D':
+            cnt = int(self.nxt())
+            e = self.expr()
+            ixs = []
+            for _ in range(cnt):
+                sl = self.nxt() == '1'
+                a, b = self.opt(), self.opt()
+                ixs.append(q.Slice(start=a, stop=b) if sl else q.Index(index=a))
+            return q.Indirection(arg=e, indirection=ixs)
+        if k == 'A':
+            return q.DetachedExpr(expr=self.expr())
+        if k == 'G':
+            m = self.opt_name()
+            return q.GlobalExpr(name=q.ObjectRef(name=NAMES[int(self.nxt())], module=m))
+        if k == 'H':
+            from edb.schema import pointers as s_pointers
+            e = self.expr()
+            cnt = int(self.nxt())
+            els = []
+            for _ in range(cnt):
+                n = NAMES[int(self.nxt())]
+                c = self.opt()
+                path = q.Path(steps=[q.Ptr(name=n, direction=s_pointers.PointerDirection.Outbound)])
+                if c is None:
+                    els.append(q.ShapeElement(expr=path))
+                else:
+                    els.append(q.ShapeElement(expr=path, compexpr=c,
+                                              operation=q.ShapeOperation(op=q.ShapeOp.ASSIGN)))
+            return q.Shape(expr=e, elements=els)
+        raise ValueError('bad term tag ' + k)
+
+
+def _idx(tab, v):
+    try:
+        return tab.index(v)
+    except ValueError:
+        raise Unsupported(f'leaf {v!r}')
+
+
+def _only(node, allowed):
+    """all fields outside `allowed` must have their default / empty value"""
+    for f, fld in node._fields.items():
+        if f in allowed or f in SKIP_FIELDS:
+            continue
+        v = getattr(node, f, None)
+        if v is None or v == [] or v == {} or v is False:
+            continue
+        if fld.default is not None and v == fld.default:
+            continue
+        raise Unsupported(f'{type(node).__name__}.{f}')
+
+
+def t_name(m, n):
+    return ('-' if m is None else str(_idx(NAMES, m))) + ' ' + str(_idx(NAMES, n))
+
+
+def t_type(t):
+    q = qlast
+    if type(t) is not q.TypeName or type(t.maintype) is not q.ObjectRef:
+        raise Unsupported('type ' + type(t).__name__)
+    _only(t, {'maintype', 'subtypes'})
+    _only(t.maintype, {'name', 'module'})
+    if t.subtypes is None:
+        return 'n ' + t_name(t.maintype.module, t.maintype.name)
+    return 'c ' + t_name(t.maintype.module, t.maintype.name) + f' {len(t.subtypes)} ' + ' '.join(t_type(x) for x in t.subtypes)
+
+
+def t_step(s):
+    q = qlast
+    if type(s) is q.Ptr:
+        if s.type == 'property':
+            return 'a ' + str(_idx(NAMES, s.name))
+        if s.type is not None:
+            raise Unsupported('ptr type')
+        d = str(s.direction) if s.direction is not None else '>'
+        return 'p ' + ('1' if d == '<' else '0') + ' ' + str(_idx(NAMES, s.name))
+    if type(s) is q.TypeIntersection:
+        return 'i ' + t_type(s.type)
+    raise Unsupported('step ' + type(s).__name__)
+
+
+def t_opt(e):
+    return '_' if e is None else to_term(e)
+
+
+def to_term(e):
+    q = qlast
+    ty = type(e)
+    if ty is q.Constant:
+        k = str(e.kind)
+        if k == 'STRING':
+            return f'C s 0 {_idx(STRS, e.value)}'
+        if k == 'BOOLEAN':
+            return f'C t 0 {1 if e.value == "true" else 0}'
+        code = {v: kk for kk, v in NUMKIND.items()}[k]
+        body = e.value.lstrip('-')
+        return f'C {code} {len(e.value) - len(body)} {_idx(NUMTAB[code], body)}'
+    if ty is q.BytesConstant:
+        return f'C b 0 {_idx(BYTESV, e.value)}'
+    if ty is q.Parameter:
+        return f'P {_idx(PARAMS, e.name)}'
+    if ty is q.Path:
+        _only(e, {'steps', 'partial'})
+        st = e.steps
+        if e.partial:
+            return f'Q {len(st)} ' + ' '.join(t_step(s) for s in st)
+        h = st[0]
+        rest = ' '.join(t_step(s) for s in st[1:])
+        if type(h) is q.ObjectRef:
+            _only(h, {'name', 'module'})
+            return (f'R {t_name(h.module, h.name)} {len(st) - 1} ' + rest).strip()
+        return (f'X {to_term(h)} {len(st) - 1} ' + rest).strip()
+    if ty is q.UnaryOp:
+        inv = {v: k for k, v in UNOPS.items()}
+        if e.op not in inv:
+            raise Unsupported('unop ' + e.op)
+        return f'U {inv[e.op]} {to_term(e.operand)}'
+    if ty is q.BinOp:
+        _only(e, {'left', 'op', 'right'})
+        ops = manifest()['operators']
+        if e.op not in ops:
+            raise Unsupported('binop ' + e.op)
+        return f'B {ops.index(e.op)} {to_term(e.left)} {to_term(e.right)}'
+    if ty is q.IsOp:
+        return f'I {1 if e.op == "IS NOT" else 0} {to_term(e.left)} {t_type(e.right)}'
+    if ty is q.IfElse:
+        return f'F {1 if e.python_style else 0} {to_term(e.condition)} {to_term(e.if_expr)} {to_term(e.else_expr)}'
+    if ty in (q.Tuple, q.Array, q.Set):
+        k = {q.Tuple: 'T', q.Array: 'A', q.Set: 'S'}[ty]
+        return (f'S {k} {len(e.elements)} ' + ' '.join(to_term(x) for x in e.elements)).strip()
+    if ty is q.NamedTuple:
+        return (f'N {len(e.elements)} ' + ' '.join(f'{_idx(NAMES, x.name.name)} {to_term(x.val)}' for x in e.elements)).strip()
+    if ty is q.FunctionCall:
+        _only(e, {'func', 'args', 'kwargs'})
+        m, f = (e.func if isinstance(e.func, tuple) else (None, e.func))
+        a = ' '.join(to_term(x) for x in e.args)
+        kw = ' '.join(f'{_idx(NAMES, n)} {to_term(x)}' for n, x in e.kwargs.items())
+        return ' '.join(z for z in [f'K {t_name(m, f)} {len(e.args)}', a, str(len(e.kwargs)), kw] if z != '')
+    if ty is q.TypeCast:
+        if e.cardinality_mod not in (None, q.CardinalityModifier.Optional):
+            raise Unsupported('cast modifier')
+        return f'T {1 if e.cardinality_mod is not None else 0} {t_type(e.type)} {to_term(e.expr)}'
+    if ty is q.Indirection:
+        out = [f'D {len(e.indirection)} {to_term(e.arg)}']
+        for ix in e.indirection:
+            if type(ix) is q.Index:
+                out.append(f'0 {to_term(ix.index)} _')
+            elif type(ix) is q.Slice:
+                out.append(f'1 {t_opt(ix.start)} {t_opt(ix.stop)}')
+            else:
+                raise Unsupported('indirection')
+        return ' '.join(out)
+    if ty is q.DetachedExpr:
+        _only(e, {'expr'})
+        return f'A {to_term(e.expr)}'
+    if ty is q.GlobalExpr:
+        if type(e.name) is not q.ObjectRef:
+            raise Unsupported('global name')
+        return f'G {t_name(e.name.module, e.name.name)}'
+    if ty is q.Shape:
+        if e.expr is None:
+            raise Unsupported('free shape')
+        out = [f'H {to_term(e.expr)} {len(e.elements)}']
+        for el in e.elements:
+            _only(el, {'expr', 'compexpr', 'operation', 'origin'})
+            if len(el.expr.steps) != 1 or type(el.expr.steps[0]) is not q.Ptr or el.expr.steps[0].type is not None \
+                    or str(el.expr.steps[0].direction or '>') != '>' or el.expr.partial:
+                raise Unsupported('shape element path')
+            if el.compexpr is not None and el.operation.op is not q.ShapeOp.ASSIGN:
+                raise Unsupported('shape op')
+            out.append(f'{_idx(NAMES, el.expr.steps[0].name)} {t_opt(el.compexpr)}')
+        return ' '.join(out)
+    raise Unsupported(ty.__name__)
+
+
+def model_tokens(text):
+    """real lexer -> (items string in the driver's notation, error)"""
+    r = rust_parser.tokenize(text)
+    if r.errors:
+        return None, 'LEXERR ' + short(str(r.errors[0][0]), 80)
+    t2s = manifest()['text2sym']
+    out = []
+    prev_end = None
+    for t in r.out:
+        kind = t.kind
+        if kind == 'EOI':
+            continue
+        start = t.span_start() if hasattr(t, 'span_start') else getattr(t, 'start', None)
+        if prev_end is not None and start is not None and start > prev_end:
+            out.append('_')
+        prev_end = t.span_end() if hasattr(t, 'span_end') else getattr(t, 'end', None)
+        txt = t.text
+        if kind == 'Ident':
+            v = t.value if isinstance(t.value, str) else txt
+            out.append(f'i{NAMES.index(v)}' if v in NAMES else f'?i:{v}')
+        elif kind == 'IntConst':
+            out.append(f'ni{INTS.index(txt)}' if txt in INTS else f'?n:{txt}')
+        elif kind == 'FloatConst':
+            out.append(f'nf{FLOATS.index(txt)}' if txt in FLOATS else f'?n:{txt}')
+        elif kind == 'BigIntConst':
+            out.append(f'nn{BIGINTS.index(txt)}' if txt in BIGINTS else f'?n:{txt}')
+        elif kind == 'DecimalConst':
+            out.append(f'nd{DECIMALS.index(txt)}' if txt in DECIMALS else f'?n:{txt}')
+        elif kind == 'Str':
+            v = t.value
+            out.append(f's{STRS.index(v)}' if v in STRS else f'?s:{v!r}')
+        elif kind == 'BinStr':
+            v = bytes(t.value) if not isinstance(t.value, bytes) else t.value
+            out.append(f'b{BYTESV.index(v)}' if v in BYTESV else f'?b:{v!r}')
+        elif kind == 'Parameter':
+            v = txt[1:]
+            out.append(f'p{PARAMS.index(v)}' if v in PARAMS else f'?p:{v}')
+        else:
+            k = txt.lower()
+            out.append(f'y{t2s[k]}' if k in t2s else f'?y:{txt}')
+    return ' '.join(out), None
+
+
+def real_parse_term(text):
+    try:
+        tree = qlparser.parse_fragment(text)
+    except errors.EdgeDBError as e:
+        return 'FAIL'
+    except AssertionError:
+        return 'FAIL'
+    try:
+        return to_term(tree)
+    except Unsupported as e:
+        return 'UNSUPPORTED ' + str(e)
+
+
+def core_one(case):
+    if case['k'] == 'pp':
+        node = TermReader(case['x'].split()).expr()
+        res = {}
+        try:
+            sc = qlcodegen.generate_source(node, pretty=False)
+            sp = qlcodegen.generate_source(node, pretty=True)
+        except Exception as e:
+            return {'err': 'print: ' + type(e).__name__ + ': ' + short(str(e), 120)}
+        res['text'] = sc
+        items, err = model_tokens(sc)
+        res['items'] = items if err is None else err
+        itp, errp = model_tokens(sp)
+        res['pretty_same_tokens'] = (err is None and errp is None
+                                     and [x for x in items.split() if x != '_'] == [x for x in itp.split() if x != '_'])
+        res['pretty_same_spacing'] = (err is None and errp is None and items == itp)
+        res['back'] = real_parse_term(sc)
+        res['back_pretty'] = real_parse_term(sp)
+        return res
+    text = case['t']
+    items, err = model_tokens(text)
+    return {'items': items if err is None else err, 'back': real_parse_term(text)}
+
+
+def main_core():
+    for line in sys.stdin:
+        line = line.rstrip('\n')
+        if not line:
+            print('{}')
+            continue
+        try:
+            r = core_one(json.loads(line))
+        except RecursionError:
+            r = {'err': 'RecursionError'}
+        sys.stdout.write(json.dumps(r) + '\n')
+
+
 if __name__ == '__main__':
     if MODE == 'explore':
         main_explore()
     elif MODE == 'grammar':
         main_grammar()
+    elif MODE == 'core':
+        main_core()
     else:
-        import c01_core  # noqa  (core correspondence lives in a sibling module)
-        c01_core.main(MODE)
+        raise SystemExit('unknown mode ' + MODE)
